@@ -192,20 +192,29 @@ def run(m: Model, r: Report, tier: str) -> None:
             "the negative response must name the request's service id", loc=f1.loc)
     # applicability of the sub-function rules is decided by the service id alone, so that unparsable (raw) requests of sub-function
     # services are classified like parsed ones
-    isr = m.require_function(f"{SRV}.UDSServer._is_sub_function_request")
-    req_par = isr.params()[1] if len(isr.params()) > 1 else "request"
-    used = {ast.unparse(n) for n in ast.walk(isr.node) if isinstance(n, ast.Attribute) and isinstance(n.value, ast.Name) and n.value.id == req_par}
-    type_tests = [ast.unparse(n) for n in ast.walk(isr.node) if isinstance(n, ast.Call) and ast.unparse(n.func) in ("isinstance", "type")
-                  and any(isinstance(a_, ast.Name) and a_.id == req_par for a_ in n.args)]
-    bare = [n for n in ast.walk(isr.node) if isinstance(n, ast.Call) and ast.unparse(n.func) not in ("isinstance", "type")
-            and any(isinstance(a_, ast.Name) and a_.id == req_par for a_ in n.args)]
-    r.check(used == {f"{req_par}.service_id"} and not type_tests and not bare, "R3", f"{isr.qualname}#by-service-id",
-            f"whether a request belongs to a sub-function service is decided from {sorted(used) + type_tests}: it must depend on the service id only, "
-            "otherwise an unparsable request of a sub-function service skips the missing-/unsupported-sub-function rules and gets 0x13 (or generalReject)", loc=isr.loc)
     iss = m.require_function(f"{SRV}.UDSServer._is_sub_function_service")
-    r.check(any(isinstance(n, ast.Call) and ast.unparse(n.func) == "self._is_sub_function_service" and [ast.unparse(a_) for a_ in n.args] == [f"{req_par}.service_id"]
-                for n in ast.walk(isr.node)), "R3", f"{isr.qualname}#same-as-model",
-            f"must delegate to {iss.name}(request.service_id), the predicate the model generation uses", loc=isr.loc)
+    srv_cls13 = m.require_class(f"{SRV}.UDSServer")
+    isr = srv_cls13.methods.get("_is_sub_function_request")
+    if isr is not None:
+        APPL_FN, APPL = "self._is_sub_function_request", "self._is_sub_function_request(request)"
+        req_par = isr.params()[1] if len(isr.params()) > 1 else "request"
+        used = {ast.unparse(n) for n in ast.walk(isr.node) if isinstance(n, ast.Attribute) and isinstance(n.value, ast.Name) and n.value.id == req_par}
+        type_tests = [ast.unparse(n) for n in ast.walk(isr.node) if isinstance(n, ast.Call) and ast.unparse(n.func) in ("isinstance", "type")
+                      and any(isinstance(a_, ast.Name) and a_.id == req_par for a_ in n.args)]
+        bare = [n for n in ast.walk(isr.node) if isinstance(n, ast.Call) and ast.unparse(n.func) not in ("isinstance", "type")
+                and any(isinstance(a_, ast.Name) and a_.id == req_par for a_ in n.args)]
+        r.check(used == {f"{req_par}.service_id"} and not type_tests and not bare, "R3", f"{isr.qualname}#by-service-id",
+                f"whether a request belongs to a sub-function service is decided from {sorted(used) + type_tests}: it must depend on the service id only, "
+                "otherwise an unparsable request of a sub-function service skips the missing-/unsupported-sub-function rules and gets 0x13 (or generalReject)", loc=isr.loc)
+        r.check(any(isinstance(n, ast.Call) and ast.unparse(n.func) == "self._is_sub_function_service" and [ast.unparse(a_) for a_ in n.args] == [f"{req_par}.service_id"]
+                    for n in ast.walk(isr.node)), "R3", f"{isr.qualname}#same-as-model",
+                f"must delegate to {iss.name}(request.service_id), the predicate the model generation uses", loc=isr.loc)
+    else:
+        # the one-line helper was inlined: the rules call the model's predicate on the service id themselves
+        APPL_FN, APPL = "self._is_sub_function_service", "self._is_sub_function_service(request.service_id)"
+        users_ = [f_ for f_ in srv_cls13.methods.values() if APPL in ast.unparse(f_.node)]
+        r.check(len(users_) >= 2, "R3", f"{srv_cls13.qualname}#by-service-id", f"the sub-function rules decide their applicability by {APPL} in {[f_.name for f_ in users_]}", loc=srv_cls13.loc)
+        r.ok("R3", f"{srv_cls13.qualname}#same-as-model", "the rules call the model's predicate directly")
     from sa.uds_rules import parse_dynamic_total
     parse_dynamic_total(m, r, "R3")
     # which services count as sub-function services: the predicate derives it from the codec classes; ISO sub-function services for which gallia has no codec class
@@ -223,13 +232,13 @@ def run(m: Model, r: Report, tier: str) -> None:
             "subFunctionNotSupported (0x12)", loc=iss.loc)
     f2 = m.require_function(f"{SRV}.UDSServer.default_response_if_missing_sub_function")
     t2 = decision_table(f2)
-    r.check(has_row(t2, ["self._is_sub_function_request(request) and len(request.pdu) < 2"], [], "incorrectMessageLengthOrInvalidFormat") and
-            has_row(t2, [], ["self._is_sub_function_request(request) and len(request.pdu) < 2"], "None"), "R3", f"{f2.qualname}#table",
+    r.check(has_row(t2, [f"{APPL} and len(request.pdu) < 2"], [], "incorrectMessageLengthOrInvalidFormat") and
+            has_row(t2, [], [f"{APPL} and len(request.pdu) < 2"], "None"), "R3", f"{f2.qualname}#table",
             f"decision table {[(sorted(c), o) for c, o, _ in t2]}", loc=f2.loc)
     f3 = m.require_function(f"{SRV}.UDSServer.default_response_if_sub_function_not_supported")
     src3 = ast.unparse(f3.node)
     t3 = decision_table(f3, m)
-    outer = [n for n in walk_no_nested(f3.node) if isinstance(n, ast.If) and "_is_sub_function_request(request)" in ast.unparse(n.test)]
+    outer = [n for n in walk_no_nested(f3.node) if isinstance(n, ast.If) and APPL.replace("self.", "") in ast.unparse(n.test)]
     # decision table of the applicability test: the rule applies exactly to requests of sub-function services other than RoutineControl that carry a sub-function byte
     bad_app = ["test not found"]
     if len(outer) == 1:
@@ -239,7 +248,7 @@ def run(m: Model, r: Report, tier: str) -> None:
             for sid in ("RC", "OTHER"):
                 for ln in (1, 2, 3):
                     env_ = {"request.service_id": sid, "UDSIsoServices.RoutineControl": "RC", "request.pdu": bytes(ln)}
-                    got = bool(_mt13.eval_expr(outer[0].test, env_, lambda call, env, _v=is_sf: _v if ast.unparse(call.func) == "self._is_sub_function_request" else NotImplemented))
+                    got = bool(_mt13.eval_expr(outer[0].test, env_, lambda call, env, _v=is_sf: _v if ast.unparse(call.func) == APPL_FN else NotImplemented))
                     want = is_sf and sid != "RC" and ln >= 2
                     if got != want:
                         bad_app.append(f"sub-function service={is_sf}, service={sid}, length={ln} -> {'applies' if got else 'skipped'}")
